@@ -184,6 +184,32 @@ def c11():
                 v.violation("parsing %d bytes of %r repeated took %d us (not linear: the bound is 6 us per byte + 0.2 s)" % (len(big), data, best),
                             {"unit_b64": b64(data), "repeat": len(big) // len(data), "us": best}, {"kind": "slow"})
             slowest_per_byte = max(slowest_per_byte, best / max(1, len(big))) if best is not None else slowest_per_byte
+        # (3b) structured growth: small grammatical texts whose cost could grow faster than their length (sharing between type definitions,
+        #      nesting, many declarations); the same time bound applies
+        def chain(n, rhs):
+            return "".join("type T%d = %s\n" % (i, rhs % {"n": "T%d" % (i + 1)}) for i in range(n)) + "type T%d = 1\n" % n
+        k = 26 if tr == "quick" else 40
+        families = [("doubling chain of products (%d definitions)" % k, chain(k, "%(n)s * %(n)s")),
+                    ("doubling chain of choices", chain(k, "+{a : %(n)s, b : %(n)s}")),
+                    ("doubling chain of functions", chain(k, "%(n)s -* %(n)s")),
+                    ("doubling chain under shifts", chain(k, "lin /\\ lin (%(n)s * %(n)s)")),
+                    ("tripling chain", chain(k, "&{a : %(n)s, b : %(n)s, c : %(n)s}")),
+                    ("deeply parenthesised type", "type A = " + "(" * 3000 + "1" + ")" * 3000 + "\n"),
+                    ("right-nested product", "type A = " + "1 * " * 20000 + "1\n"),
+                    ("many definitions", "".join("type A%d = 1\n" % i for i in range(4000))),
+                    ("long alias chain", "".join("type A%d = A%d\n" % (i, i + 1) for i in range(1500)) + "type A1500 = 1\n"),
+                    ("many small functions", "".join("let f%d(x : 1) : 1 = wait x; close self\n" % i for i in range(2500))),
+                    ("deeply nested cuts", "let f() : 1 = " + "".join("x%d : 1 <- new close self; wait x%d; " % (i, i) for i in range(3000)) + "close self\n")]
+        for fname, text in families:
+            big = text.encode()
+            rp, best = timed(big)
+            pumped += 1
+            if best is None:
+                v.violation("ParseString does not return within 40 s on a %d-byte text: %s" % (len(big), fname), {"input_b64": b64(big), "family": fname},
+                            {"kind": "pump-hang" if rp.get("hang") else "pump-crash"})
+            elif best > 6 * len(big) + 200000:
+                v.violation("parsing %d bytes (%s) took %d us (the bound is 6 us per byte + 0.2 s)" % (len(big), fname, best),
+                            {"input_b64": b64(big), "family": fname, "us": best}, {"kind": "slow"})
         # (4) truncations and byte mutations of real programs
         trunc = 0
         texts = repo_texts()
